@@ -9,6 +9,7 @@ package doccomposer
 import (
 	"encoding/json"
 	"fmt"
+	"strconv"
 	"strings"
 
 	jsonpatch "github.com/evanphx/json-patch"
@@ -113,7 +114,14 @@ func applyJSON(doc document.Document, entry interface{}) (result document.Docume
 			return nil, err
 		}
 
-		docBytes, err = jsonPatches[i : i+1].Apply(docBytes)
+		var steps jsonpatch.Patch
+
+		steps, err = asAddRemove(jsonPatches[i:i+1], docBytes)
+		if err != nil {
+			return nil, err
+		}
+
+		docBytes, err = steps.Apply(docBytes)
 		if err != nil {
 			return nil, err
 		}
@@ -122,12 +130,11 @@ func applyJSON(doc document.Document, entry interface{}) (result document.Docume
 	return document.FromBytes(docBytes)
 }
 
-// validateCopyTarget refuses a copy whose target lies inside its own source: the JSON patch
-// library would build a cyclic document and overflow the stack while serializing it.
+// validateCopyTarget refuses 'from' and 'path' members that are not JSON pointers.
 func validateCopyTarget(op map[string]*json.RawMessage) error {
-	var kind, from, path string
+	var from, path string
 
-	for name, target := range map[string]*string{"op": &kind, "from": &from, "path": &path} {
+	for name, target := range map[string]*string{"from": &from, "path": &path} {
 		if raw, ok := op[name]; ok && raw != nil {
 			if err := json.Unmarshal(*raw, target); err != nil {
 				return fmt.Errorf("invalid JSON patch member '%s': %w", name, err)
@@ -142,11 +149,82 @@ func validateCopyTarget(op map[string]*json.RawMessage) error {
 		}
 	}
 
-	if kind == "copy" && strings.HasPrefix(path, from+"/") {
-		return fmt.Errorf("cannot copy '%s' into its own child '%s'", from, path)
+	return nil
+}
+
+// asAddRemove turns a copy or move into what RFC 6902 (sections 4.4, 4.5) defines it to be: an add of the value found
+// at 'from', preceded by its removal in case of a move. The JSON patch library's own copy and move share the value
+// between source and target (a copy into its own source, also when spelled with another form of the same array index
+// such as '00', gives a cyclic document that overflows the stack when serialized) and size a target array by the
+// target index (out of memory for a large index). Any other operation is returned as it is.
+func asAddRemove(single jsonpatch.Patch, docBytes []byte) (jsonpatch.Patch, error) {
+	var kind, from string
+
+	op := single[0]
+
+	for name, target := range map[string]*string{"op": &kind, "from": &from} {
+		if raw, ok := op[name]; ok && raw != nil {
+			if err := json.Unmarshal(*raw, target); err != nil {
+				return nil, fmt.Errorf("invalid JSON patch member '%s': %w", name, err)
+			}
+		}
 	}
 
-	return nil
+	if kind != "copy" && kind != "move" {
+		return single, nil
+	}
+
+	value, err := valueAt(docBytes, from)
+	if err != nil {
+		return nil, fmt.Errorf("%s from '%s': %w", kind, from, err)
+	}
+
+	add, remove := json.RawMessage(`"add"`), json.RawMessage(`"remove"`)
+
+	steps := jsonpatch.Patch{{"op": &add, "path": op["path"], "value": &value}}
+	if kind == "move" {
+		steps = jsonpatch.Patch{{"op": &remove, "path": op["from"]}, steps[0]}
+	}
+
+	return steps, nil
+}
+
+// valueAt returns the value that a JSON pointer refers to (array members are addressed as the JSON patch library does).
+func valueAt(docBytes []byte, pointer string) (json.RawMessage, error) {
+	current := json.RawMessage(docBytes)
+
+	if pointer == "" {
+		return current, nil
+	}
+
+	unescape := strings.NewReplacer("~1", "/", "~0", "~")
+
+	for _, segment := range strings.Split(pointer, "/")[1:] {
+		var members map[string]json.RawMessage
+
+		var elements []json.RawMessage
+
+		switch {
+		case json.Unmarshal(current, &members) == nil && members != nil:
+			value, ok := members[unescape.Replace(segment)]
+			if !ok {
+				return nil, fmt.Errorf("member '%s' not found", segment)
+			}
+
+			current = value
+		case json.Unmarshal(current, &elements) == nil && elements != nil:
+			index, err := strconv.Atoi(segment)
+			if err != nil || index < 0 || index >= len(elements) {
+				return nil, fmt.Errorf("invalid array index '%s'", segment)
+			}
+
+			current = elements[index]
+		default:
+			return nil, fmt.Errorf("no value at '%s'", segment)
+		}
+	}
+
+	return current, nil
 }
 
 func applyRecover(replaceDoc interface{}) (document.Document, error) {
